@@ -208,6 +208,8 @@ def run(ctx):
     # ---- oracle 1: deterministic preemption at shared writes / at lines (real threads) --------
     forced_search(ctx, datasets, rng, quick)
     lap("forced")
+    multi_switch(ctx, datasets, rng, quick)
+    lap("multi_switch")
     storm_search(ctx, datasets, rng, quick)
     lap("storm")
 
@@ -237,28 +239,51 @@ FIXED_OPS = [
 ]
 
 
+def _fp_job(job):
+    """worker process: trace the operations of one job (fresh handle per operation, or one warm handle)"""
+    path, phase, ops = job
+    import warnings
+    warnings.simplefilter("ignore")
+    warnings.showwarning = lambda *a, **k: None
+    C.use_shadow()
+    from fastparquet import ParquetFile
+    warm = ParquetFile(path) if phase == "warm" else None
+    out = []
+    for op in ops:
+        pf = warm if warm is not None else ParquetFile(path)
+        res, changes, nlines, scr = conc.trace_footprint(pf, op)
+        out.append((op, conc.canon(res), changes, nlines, scr))
+    return out
+
+
 def footprint_premise(ctx, pq, datasets, rng, quick):
     """each operation alone under the line tracer; every transition of the state reachable from the
     parent handle must be a memo add, and all traces must agree on one value per key"""
-    from fastparquet import ParquetFile
+    import multiprocessing as mp
+    jobs, owner = [], []
+    sels = {}
     for di, (spec, path, solo) in enumerate(datasets):
         ops = [dict(o) for o in FIXED_OPS]
         if "c" in spec["cols"]:
             ops.append({"op": "to_pandas", "categories": ["c"]})
             ops.append({"op": "to_pandas", "categories": {"c": 3}, "columns": ["c", "i"]})
         ops += [gen_op(rng, spec) for _ in range(2 if quick else 10)]
+        for i in range(0, len(ops), 3):
+            jobs.append((path, "fresh", ops[i:i + 3]))
+            owner.append(di)
+        wsel = (ops[1:3] + ops[3:4] + ops[8:10] + ops[11:12]) if quick else ops
+        sels[di] = wsel
+        jobs.append((path, "warm", wsel))
+        owner.append(di)
+    with mp.get_context("fork").Pool(min(8, len(jobs))) as pool:
+        results = pool.map(_fp_job, jobs, chunksize=1)
+    for di, (spec, path, solo) in enumerate(datasets):
         inter = conc.Interner()
         traces, metas = [], []
-        warm = ParquetFile(path)
-        for phase, handle_of in (("fresh", lambda: ParquetFile(path)), ("warm", lambda: warm)):
-            if phase == "warm" and quick:
-                sel = ops[1:3] + ops[3:4] + ops[8:10] + ops[11:12]
-            else:
-                sel = ops
-            for op in sel:
-                pf = handle_of()
-                res, changes, nlines, scr = conc.trace_footprint(pf, op)
-                got = conc.canon(res)
+        for (jpath, phase, jops), res_list, own in zip(jobs, results, owner):
+            if own != di:
+                continue
+            for op, got, changes, nlines, scr in res_list:
                 kinds = conc.classify_trace(changes)
                 case = {"footprint": phase, "dataset": spec, "op": op}
                 ctx.case(case)
@@ -273,6 +298,7 @@ def footprint_premise(ctx, pq, datasets, rng, quick):
                 # the traced run is itself a solo/sequential run: its result must be the solo result
                 want = solo(op)
                 if got != want:
+                    sel = sels[di]
                     ctx.fail({"component": "shared-handle", "op": op["op"], "symptom": symptom(got), "mode": "sequential-" + phase},
                              {"mode": "sequence", "dataset": spec, "ops": [o for o in sel[:sel.index(op) + 1]] if phase == "warm" else [op]},
                              "result on a %s handle differs from the solo result: %r vs %r" % (phase, got, want))
@@ -378,7 +404,7 @@ def check_pair(ctx, spec, path, solo, ops, plan, what):
 
 
 def forced_search(ctx, datasets, rng, quick):
-    budget = 90 if quick else 600
+    budget = 60 if quick else 600
     per_ds = budget // len(datasets)
     for spec, path, solo in datasets:
         pool = [dict(o) for o in FIXED_OPS] + [gen_op(rng, spec) for _ in range(6 if quick else 30)]
@@ -416,6 +442,31 @@ def forced_search(ctx, datasets, rng, quick):
                 done += 1
 
 
+def multi_switch(ctx, datasets, rng, quick):
+    """2-3 threads, random plans with many switches at line granularity (both directions)"""
+    from fastparquet import ParquetFile
+    n = 10 if quick else 120
+    for r in range(n):
+        spec, path, solo = datasets[r % len(datasets)]
+        nt = rng.choice([2, 2, 3])
+        ops = [gen_op(rng, spec) for _ in range(nt)]
+        if r % 2 == 0:
+            ops[0] = gen_op(rng, spec, rng.choice(["slice", "head", "iter", "count", "statistics"]))
+        plan = [[rng.randrange(nt), rng.choice([1, 2, 3, 5, 10, 30, 100, 300]), "lines"] for _ in range(rng.choice([6, 12, 25, 60]))]
+        pf = ParquetFile(path)
+        res, steps, dead = conc.forced_run(pf, ops, [list(p) for p in plan])
+        got = [conc.canon(x) for x in res]
+        case = {"mode": "forced", "dataset": spec, "ops": ops, "plan": plan}
+        ctx.case(case)
+        ctx.count("forced.kind", "multi-switch-%d" % nt)
+        for i, op in enumerate(ops):
+            want = solo(op)
+            if got[i] != want or dead:
+                ctx.fail({"component": "shared-handle", "op": op["op"], "symptom": "hang" if dead else symptom(got[i]), "mode": "forced-multi"},
+                         dict(case, failing_thread=i, solo=want, got=got[i]),
+                         "thread %d (%s) under a %d-switch schedule: %r, alone: %r" % (i, okey(op), len(plan), got[i], want))
+
+
 def check_storm(ctx, spec, path, solo, a, b, every, phase):
     from fastparquet import ParquetFile
     pf = ParquetFile(path)
@@ -446,8 +497,8 @@ def storm_search(ctx, datasets, rng, quick):
     """op b preempted at (nearly) every line, a complete op a in each gap.  a = the operations that write
     shared state on this tree (known from their footprint) first, then derived-handle operations."""
     from fastparquet import ParquetFile
-    npairs = 24 if quick else 96
-    max_calls = 800 if quick else 2500
+    npairs = 16 if quick else 96
+    max_calls = 500 if quick else 2500
     broken = bool(ctx.broken)
     if broken:
         npairs, max_calls = (24, 2500) if quick else (96, 8000)
